@@ -36,9 +36,10 @@ type (
 	}
 	ECond  struct{ C, A, B Expr }
 	EQuant struct {
-		Forall bool
-		Vars   []QVar
-		Body   Expr
+		Forall   bool
+		Vars     []QVar
+		Body     Expr
+		Triggers [][]Expr
 	}
 	EAt struct { // @pattern : result of dominating call
 		Pat string
@@ -164,7 +165,7 @@ func lex(s string) ([]tok, error) {
 			toks = append(toks, tok{"at", string(rs[i+1 : j])})
 			i = j
 		default:
-			ops := []string{"<==>", "==>", "::", "==", "!=", "<=", ">=", "&&", "||", "+", "-", "*", "/", "%", "<", ">", "!", "(", ")", "[", "]", ".", ",", "?", ":", "&"}
+			ops := []string{"<==>", "==>", "::", "==", "!=", "<=", ">=", "&&", "||", "+", "-", "*", "/", "%", "<", ">", "!", "(", ")", "[", "]", ".", ",", "?", ":", "&", "{", "}"}
 			matched := false
 			for _, op := range ops {
 				if strings.HasPrefix(string(rs[i:]), op) {
@@ -384,6 +385,18 @@ func (p *parser) primary() Expr {
 					continue
 				}
 				break
+			}
+			for p.isOp("{") {
+				p.next()
+				var tr []Expr
+				for !p.isOp("}") {
+					tr = append(tr, p.expr(0))
+					if p.isOp(",") {
+						p.next()
+					}
+				}
+				p.expect("}")
+				q.Triggers = append(q.Triggers, tr)
 			}
 			p.expect("::")
 			q.Body = p.expr(0)
